@@ -57,8 +57,57 @@ def gen_case(rng, cid, mode):
     return {"id": cid, "script": sc, "arg": rng.randint(0, 40), "handlers": hs}
 
 
+NEG = {1: 300001, 2: 300002}
+
+
+def gen_neg_case(rng, cid, mode):
+    """equality conditions on values whose hashes collide although they differ (hash(-1) == hash(-2) in CPython): two selectors
+    that differ only there are two selectors, each filtering by its own value"""
+    import copy
+    sc = scripts.gen_script(rng, maxlen=rng.randint(8, 30), maxdepth=3, p_call=0.3, reads=True, valmax=3, aug=False, ann=False,
+                            fns=rng.choice(["fg", "f"]))
+    sc = [[op[0], NEG.get(op[1], op[1])] if (op[0].startswith(("bind_", "call_", "catch_")) or op[0] == "iter") else op for op in sc]
+    fns = P.script_fns(sc)
+    for _ in range(20):
+        s = S.gen_sel(rng, fns=fns, names=("a", "b", "p", "i"), maxdepth=rng.choice([1, 2]), conds=False)
+        caps = []
+
+        def walk(n):
+            caps.extend(c for c in n["caps"] if c["name"] in ("a", "b", "p", "i"))
+            for k in n["kids"]:
+                walk(k)
+        walk(s)
+        if caps:
+            break
+    hs = []
+    if caps:
+        i = rng.randrange(len(caps))
+        vals = rng.sample([300001, 300002], 2)
+        for v in vals:
+            t = copy.deepcopy(s)
+            caps2 = []
+
+            def walk2(n):
+                caps2.extend(c for c in n["caps"] if c["name"] in ("a", "b", "p", "i"))
+                for k in n["kids"]:
+                    walk2(k)
+            walk2(t)
+            caps2[i]["cond"] = S.cond("eq", n=v)
+            h = {"kind": "imm", "sel": t}
+            if rng.random() < 0.3:
+                h["ovr"] = {"k": "const", "c": rng.randint(500, 999)}
+            hs.append(W.norm_handler(h))
+    else:
+        hs.append(W.norm_handler({"kind": "imm", "sel": s}))
+    return {"id": cid, "script": sc, "arg": rng.choice([0, 300001, 300002]), "handlers": hs}
+
+
+def gen_any(rng, cid, mode):
+    return gen_neg_case(rng, cid, mode) if rng.random() < 0.12 else gen_case(rng, cid, mode)
+
+
 def run_e2e(out, tier, seed):
-    return P.run_world(out, tier, seed, gen_case, PLAN, salt=13,
+    return P.run_world(out, tier, seed, gen_any, PLAN, salt=13,
                        rule="loop/call scripts with values in 0..40 x selectors constraining captures at different stack levels "
                             "and the trigger itself (=, lt, gt, lte, gte, every, between), observing and overriding",
                        sample_filter=lambda t: sum(len(e["dlv"]) for e in t["events"]) > 2)
